@@ -28,35 +28,39 @@ func NewTrackStakeChangesDecorator(rk keeper.Keeper, sk types.StakingKeeper) Tra
 
 // implement the AnteDecorator interface
 func (t TrackStakeChangesDecorator) AnteHandle(ctx sdk.Context, tx sdk.Tx, simulate bool, next sdk.AnteHandler) (sdk.Context, error) {
-	// loop through all the messages and check if the message type will change stake by more than 5%
-	var msgAmount math.Int
+	// sum up what all the staking messages of the transaction add to / remove from the bonded stake:
+	// the 5% bound applies to the transaction as a whole, not to each message separately
+	increase := math.ZeroInt()
+	decrease := math.ZeroInt()
+	hasStakingMsg := false
 	for _, msg := range tx.GetMsgs() {
 		switch msg := msg.(type) {
 		case *stakingtypes.MsgCreateValidator:
-			msgAmount = msg.Value.Amount
+			increase = increase.Add(msg.Value.Amount)
 		case *stakingtypes.MsgDelegate:
-			msgAmount = msg.Amount.Amount
+			increase = increase.Add(msg.Amount.Amount)
 		case *stakingtypes.MsgBeginRedelegate:
 			// redelegate shouldn't increase the total stake, however if its coming from
 			// a validator that is not in the active set, it might be considered as an increase
 			// in the active stake. Hence, we need to handle it appropriately.
-			msgAmount = msg.Amount.Amount
+			increase = increase.Add(msg.Amount.Amount)
 		case *stakingtypes.MsgCancelUnbondingDelegation:
-			msgAmount = msg.Amount.Amount
+			increase = increase.Add(msg.Amount.Amount)
 		case *stakingtypes.MsgUndelegate:
-			// negate the amount since undelegating is removing stake from the chain
-			// and to help with the comparison later on
-			msgAmount = msg.Amount.Amount.Neg()
+			decrease = decrease.Add(msg.Amount.Amount)
 		default:
 			continue
 		}
+		hasStakingMsg = true
+	}
+	if hasStakingMsg {
 		// get the total bonded tokens that was set in the last update
 		// to compare against the current amount of bonded tokens
 		lastupdated, err := t.reporterKeeper.Tracker.Get(ctx)
 		if err != nil {
 			// for when chain is first started
 			if errors.Is(err, collections.ErrNotFound) {
-				return ctx, nil
+				return next(ctx, tx, simulate)
 			}
 			return ctx, err
 		}
@@ -64,21 +68,20 @@ func (t TrackStakeChangesDecorator) AnteHandle(ctx sdk.Context, tx sdk.Tx, simul
 		if err != nil {
 			return ctx, err
 		}
-		changeAmt := currentAmount.Add(msgAmount)
-		if msgAmount.IsNegative() {
+		if decrease.IsPositive() {
 			// subtract 5 percent from last updated amount
 			allowedLowerBound := lastupdated.Amount.Sub(lastupdated.Amount.QuoRaw(20))
-			if changeAmt.LT(allowedLowerBound) {
+			if currentAmount.Sub(decrease).LT(allowedLowerBound) {
 				return ctx, errors.New("total stake decrease exceeds the allowed 5% threshold within a twelve-hour period")
 			}
-		} else {
+		}
+		if increase.IsPositive() {
 			// add 5 percent to last updated amount
 			allowedUpperBound := lastupdated.Amount.Add(lastupdated.Amount.QuoRaw(20))
-			if changeAmt.GT(allowedUpperBound) {
+			if currentAmount.Add(increase).GT(allowedUpperBound) {
 				return ctx, errors.New("total stake increase exceeds the allowed 5% threshold within a twelve-hour period")
 			}
 		}
-
 	}
 
 	return next(ctx, tx, simulate)
